@@ -613,6 +613,15 @@ pub fn gen_honest_plan(rng: &mut Rng, cast: &Cast, w3c: bool, with_rev: bool) ->
                 };
                 rp.restrictions = Some(true_restrictions(rng, cast, held, &revealed_pairs));
             }
+            // a predicate referent restricted by the marker / the (true) value of its own attribute, spelled as the credential spells it
+            if let Kind::Pred(n, _, _) = &mut rp.kind {
+                if rng.chance(1, 4) {
+                    *n = name.clone();
+                    // (W3C: the subject shows a predicate attribute as the marker `true`; a value leaf on it is outside the hypotheses of
+                    // C04_w3c — `predsServed` — so the W3C stream keeps to the marker)
+                    rp.restrictions = Some(if w3c || rng.chance(1, 2) { json!({ format!("attr::{name}::marker"): "1" }) } else { json!({ format!("attr::{name}::value"): raw }) });
+                }
+            }
             first = false;
             // a second predicate on the same attribute (a range), sometimes
             let range = match &rp.kind {
